@@ -91,8 +91,10 @@ int c14_write_at(sqfs_file_t *f, sqfs_u64 off, const void *buf,
 	g_w_off = off;
 	g_w_len = n;
 	g_w_seq = g_seq;
+#ifndef C14_NO_WITNESS
 	if (g_w_k < n)
 		g_w_witness = ((const sqfs_u8 *)buf)[g_w_k];
+#endif
 
 	if (verif_nd_bool("write_at.fail") || off > C14_FILE_MAX ||
 	    n > C14_FILE_MAX - off) {
@@ -226,8 +228,10 @@ sqfs_s32 c14_do_block(sqfs_compressor_t *cmp, const sqfs_u8 *in,
 	}
 	if (r > 0 && ((sqfs_u32)r >= size || (sqfs_u32)r > outsize))
 		r = 0;
+#ifndef C14_NO_WITNESS
 	if (k < (size_t)r)
 		out[k] = verif_nd_u8("do_block.byte");
+#endif
 	return r;
 }
 
